@@ -59,10 +59,9 @@ PINNED = {
 # gen/extractors/bdsfns.py translates them into Gen/BdsFns.lean, Proofs/Decode/GenBds.lean proves the translation equal
 # to the model's conversion function on every value of the bits read, and Props/Cxx.lean of every property listed in
 # TRANSLATED_FOR states that as `bds50_readers_as_modelled` / `bds60_readers_as_modelled`.  A rewrite that keeps the
-# values no longer alarms; a behavioural edit fails the named theorem.  (`fn read_tas`, `fn read_mach` stay pinned:
-# their obligations are `_partial`.)
+# values no longer alarms; a behavioural edit fails the named theorem.  (`fn read_tas` stays pinned: its obligation is `_partial`.)
 TRANSLATED = {D + "bds/bds50.rs": ["fn read_roll", "fn read_track", "fn read_groundspeed", "fn read_rate"],
-              D + "bds/bds60.rs": ["fn read_heading", "fn read_ias", "fn read_vertical"]}
+              D + "bds/bds60.rs": ["fn read_heading", "fn read_ias", "fn read_mach", "fn read_vertical"]}
 TRANSLATED_FOR = {"C03", "C08"}
 import re
 try:
